@@ -58,7 +58,7 @@ def filter_and_sort_qualifiers(qualifiers: Dict[str, List[str]]) -> Optional[Dic
     """Filter out the qualifiers for any terms we have extracted as BioCantor identifiers as well as any
     GFF3 special terms"""
     qualifiers = {
-        key: sorted(vals) for key, vals in qualifiers.items() if not re.match(BIOCANTOR_QUALIFIERS_REGEX, key)
+        key: sorted(vals) for key, vals in qualifiers.items() if not re.fullmatch(BIOCANTOR_QUALIFIERS_REGEX, key)
     }
     return qualifiers if qualifiers else None
 
